@@ -14,7 +14,9 @@ The existing per-property models composed into one executable model of `reuse li
                       copyright notices; C02/C12), unless an `override` applies (the file is not
                       opened) or the own source is binary
        attribution  = `Model.reuseInfoOf chain ownInfo`            (C04, `Project.reuse_info_of`)
-  LICENSES/  ──every regular file below it, hidden names skipped── (`Project._find_licenses`, glob `**`)
+  LICENSES/  ──every regular file below it and every symbolic link below it that resolves to one (named by
+               the link's own name), through real and linked directories, hidden names skipped──
+                                                                   (`Project._find_licenses`, glob `**`)
   report     = `Model.generate`                                    (C06/C01, `ProjectReport.generate`)
 
 What stays an oracle (a parameter, supplied by the harness from the real libraries): the version
@@ -22,9 +24,13 @@ control system (as in Model/Covered), `binaryornot.is_binary`, tomlkit + attrs v
 REUSE.toml arrives as its list of tables), python-debian (`.reuse/dep5` arrives as its list of
 Files paragraphs), license-expression (`parses`, `keysOf`).
 
-Outside the model (documented boundary, DESIGN-E2E): special files (FIFOs, sockets), symlinks
-below LICENSES/ and a `FILE.license` that is a live symlink (a symlink sibling is read as a
-dangling one: the file itself is the source).
+Symbolic links carry what they resolve to (`LinkTarget`: nothing, the bytes of a regular file, the
+entries of a directory; the harness follows links to links before encoding).  Only `_find_licenses`
+looks at it: the covered-files walk skips every symbolic link whatever it points at.
+
+Outside the model (documented boundary, DESIGN-E2E): special files (FIFOs, sockets), link loops and a
+`FILE.license` that is a live symlink (a symlink sibling is read as a dangling one: the file itself
+is the source).
 -/
 import ReuseVerif.Model.Covered
 import ReuseVerif.Model.Glob
@@ -36,12 +42,22 @@ import ReuseVerif.Model.Report
 namespace Model
 open Py
 
-/-- a directory entry with what the pipeline reads of it: regular files carry their bytes -/
+mutual
+/-- a directory entry with what the pipeline reads of it: regular files carry their bytes, symbolic
+    links what they resolve to -/
 inductive ENode where
   | file (content : Bytes)
-  | symlink
+  | symlink (target : LinkTarget)
   | dir (children : List (String × ENode))
-  deriving Inhabited
+/-- what `stat` finds behind a symbolic link (links to links already followed) -/
+inductive LinkTarget where
+  | dangling
+  | file (content : Bytes)
+  | dir (children : List (String × ENode))
+end
+
+instance : Inhabited ENode := ⟨.file []⟩
+instance : Inhabited LinkTarget := ⟨.dangling⟩
 
 abbrev ETree := List (String × ENode)
 
@@ -49,7 +65,7 @@ mutual
 /-- the tree `Model.iterFiles` walks: contents forgotten, sizes kept -/
 def ENode.toNode : ENode → Node
   | .file c => .file c.length
-  | .symlink => .symlink
+  | .symlink _ => .symlink
   | .dir cs => .dir (toNodes cs)
 def toNodes : List (String × ENode) → List (String × Node)
   | [] => []
@@ -227,25 +243,34 @@ def EFile.toCov (c : E2ECfg) (f : EFile) : CovFile :=
 def hiddenName (n : String) : Bool := n.toList.head? == some '.'
 
 mutual
-/-- `glob.iglob("LICENSES/**", recursive=True)` restricted to regular files: hidden names are
-    neither listed nor descended into -/
+/-- `glob.iglob("LICENSES/**", recursive=True)` restricted to what `exists() and not is_dir()` keeps:
+    hidden names are neither listed nor descended into; a symbolic link is listed (under its own
+    name) when it resolves to a regular file and descended into when it resolves to a directory -/
 def licWalkNode (path : List String) (name : String) : ENode → List (List String)
   | .file _ => if hiddenName name then [] else [path ++ [name]]
-  | .symlink => []
+  | .symlink t => licWalkLink path name t
+  | .dir cs => if hiddenName name then [] else licWalkList (path ++ [name]) cs
+def licWalkLink (path : List String) (name : String) : LinkTarget → List (List String)
+  | .dangling => []
+  | .file _ => if hiddenName name then [] else [path ++ [name]]
   | .dir cs => if hiddenName name then [] else licWalkList (path ++ [name]) cs
 def licWalkList (path : List String) : List (String × ENode) → List (List String)
   | [] => []
   | (n, c) :: rest => licWalkNode path n c ++ licWalkList path rest
 end
 
-/-- the paths `_find_licenses` iterates over (`*.license` companions are skipped by `findStep`).
-    Only a *directory* called LICENSES holds licence texts (a regular file of that name used to
-    be taken for a licence text, because `glob("LICENSES/**")` also yields `LICENSES/` itself:
-    repaired). -/
-def licFilesOf (tree : ETree) : List Text :=
+/-- the entries below LICENSES/ `_find_licenses` keeps, as component lists.  Only a *directory* called
+    LICENSES — or a symbolic link of that name to one (`is_dir()` follows links) — holds licence texts
+    (a regular file of that name used to be taken for a licence text, because `glob("LICENSES/**")` also
+    yields `LICENSES/` itself: repaired). -/
+def licPathsOf (tree : ETree) : List (List String) :=
   match elookup tree "LICENSES" with
-  | some (.dir cs) => (licWalkList ["LICENSES"] cs).map relText
+  | some (.dir cs) => licWalkList ["LICENSES"] cs
+  | some (.symlink (.dir cs)) => licWalkList ["LICENSES"] cs
   | _ => []
+
+/-- the paths `_find_licenses` iterates over (`*.license` companions are skipped by `findStep`) -/
+def licFilesOf (tree : ETree) : List Text := (licPathsOf tree).map relText
 
 /-- `(root / ".reuse/dep5").exists()` -/
 def hasDep5 (tree : ETree) : Bool :=
